@@ -22,7 +22,7 @@ META = {
             "LO(r)..LO(r+1)-1 of the shuffled list). The dictionary merge of initial_sympify is verified too (keys of all ranks; the value of a key is that of its first occurrence in rank order -- the same on every rank). "
             "The gather of check_results' findings is not lifted deductively; they are covered by the structural obligations and the bounded runs.",
     "note": "A-mpi (stand-in delivers collectives in rank order like MPI), A-hash (hash seed fixed per run). Bounded: core_maths/ext_maths, complexities in evidence.",
-    "technique": "contract-based deductive verification of the partition function + bounded multi-process stand-in of generation",
+    "technique": "contract-based deductive verification of the partition function and, with an SPMD rule for gather / bcast / scatter, of the cross-rank merges and hand-outs (AST->VC->SMT) + structural collective-alignment obligations (rank-taint analysis) + bounded multi-process stand-in of generation",
 }
 CHECKER = "./bin/check C13"
 
